@@ -314,31 +314,31 @@ def r75(ctx):
     ctx.rule("R7.5", "the handler stores the request's own (local) upfront shutdown script as the holder's: value and "
                      "presence of ChannelSetup.holder_shutdown_script come from local_shutdown_script only")
     p = ctx.prog
-    b = p.fn("<vls_protocol_signer::handler::ChannelHandler as vls_protocol_signer::handler::Handler>::do_handle")
-    ctx.touch(b)
-    fv = fnview(ctx, b)
     sites = 0
-    for bi in sorted(fv.live_blocks()):
-        for st in b.stmts(bi):
-            if not (st.kind == "a" and st.rv.op == "agg" and isinstance(st.rv.a, tuple) and st.rv.a[0] == "adt"
-                    and st.rv.a[1].name.endswith("channel::ChannelSetup")):
+    # every construction of a ChannelSetup in the protocol signer (today: the SetupChannel arm of ChannelHandler::do_handle)
+    for b, bi, si, st in R.constructions(p, "lightning_signer::channel::ChannelSetup"):
+        if b.d.krate != "vls_protocol_signer" or R.is_test_util(b.name):
+            continue
+        ctx.touch(b)
+        fv = fnview(ctx, b)
+        if bi not in fv.live_blocks():
+            continue
+        sites += 1
+        for f, o in zip(st.rv.a[3], st.rv.ops):
+            if f not in SETUP_ROLES:
                 continue
-            sites += 1
-            for f, o in zip(st.rv.a[3], st.rv.ops):
-                if f not in SETUP_ROLES:
-                    continue
-                want, other = SETUP_ROLES[f]
-                root, defs, sw = R.conditional_defs(fv, o)
-                vals = [render(e) for _, ops in defs for e in ops]
-                conds = [render(e) for _, e in sw]
-                some = [v for v in vals if want in v]
-                ok_val = bool(some) and not any(other in v for v in vals)
-                ctx.ob("R7.5", ok_val, f"{b.name}/ChannelSetup.{f}/value",
-                       f"ChannelSetup.{f} is built from {[v[:80] for v in vals]} (expected the request's {want} only)",
-                       where=f"{b.file}:{st.line}", sample=f"{f} <- {want}")
-                ok_c = all(want in c and other not in c for c in conds) and (bool(conds) or len(defs) == 1)
-                ctx.ob("R7.5", ok_c, f"{b.name}/ChannelSetup.{f}/presence",
-                       f"whether ChannelSetup.{f} is set is decided by {[c[:100] for c in conds]} (expected a test of the "
-                       f"request's {want} only): a script the node fixed can be dropped, or an absent one invented",
-                       where=f"{b.file}:{st.line}", sample=f"presence of {f} <- {want}")
-    ctx.floor("R7.5", "ChannelSetup constructions in the channel handler", sites, 1)
+            want, other = SETUP_ROLES[f]
+            root, defs, sw = R.conditional_defs(fv, o)
+            vals = [render(e) for _, ops in defs for e in ops]
+            conds = [render(e) for _, e in sw]
+            some = [v for v in vals if want in v]
+            ok_val = bool(some) and not any(other in v for v in vals)
+            ctx.ob("R7.5", ok_val, f"{b.name}/ChannelSetup.{f}/value",
+                   f"ChannelSetup.{f} is built from {[v[:80] for v in vals]} (expected the request's {want} only)",
+                   where=f"{b.file}:{st.line}", sample=f"{f} <- {want}")
+            ok_c = all(want in c and other not in c for c in conds) and (bool(conds) or len(defs) == 1)
+            ctx.ob("R7.5", ok_c, f"{b.name}/ChannelSetup.{f}/presence",
+                   f"whether ChannelSetup.{f} is set is decided by {[c[:100] for c in conds]} (expected a test of the "
+                   f"request's {want} only): a script the node fixed can be dropped, or an absent one invented",
+                   where=f"{b.file}:{st.line}", sample=f"presence of {f} <- {want}")
+    ctx.floor("R7.5", "ChannelSetup constructions in the protocol signer", sites, 1)
